@@ -105,6 +105,22 @@ var srcTargets = []srcTarget{
 	{Group: "DecodeV1", Name: "parseHeaders", Only: "V1"},
 	{Group: "DecodeV1", Name: "parseClaims", Only: "V1"},
 	{Group: "DecodeV1", Name: "Decode", Only: "V1"},
+	{Group: "Codec", Recv: "OperatorClaims", Name: "updateVersion", Only: "V2"},
+	{Group: "Codec", Recv: "AccountClaims", Name: "updateVersion", Only: "V2"},
+	{Group: "Codec", Recv: "UserClaims", Name: "updateVersion", Only: "V2"},
+	{Group: "Codec", Recv: "ActivationClaims", Name: "updateVersion", Only: "V2"},
+	{Group: "Codec", Recv: "AuthorizationRequestClaims", Name: "updateVersion", Only: "V2"},
+	{Group: "Codec", Recv: "AuthorizationResponseClaims", Name: "updateVersion", Only: "V2"},
+	{Group: "Codec", Recv: "OperatorClaims", Name: "ExpectedPrefixes", Only: "V2"},
+	{Group: "Codec", Recv: "AccountClaims", Name: "ExpectedPrefixes", Only: "V2"},
+	{Group: "Codec", Recv: "UserClaims", Name: "ExpectedPrefixes", Only: "V2"},
+	{Group: "Codec", Recv: "ActivationClaims", Name: "ExpectedPrefixes", Only: "V2"},
+	{Group: "Codec", Recv: "AuthorizationRequestClaims", Name: "ExpectedPrefixes", Only: "V2"},
+	{Group: "Codec", Recv: "AuthorizationResponseClaims", Name: "ExpectedPrefixes", Only: "V2"},
+	{Group: "Codec", Recv: "GenericClaims", Name: "ExpectedPrefixes", Only: "V2"},
+	{Group: "Codec", Name: "decodeString"},
+	{Group: "Codec", Name: "encodeToString"},
+	{Group: "Codec", Name: "serialize"},
 	{Group: "Encode", Recv: "ClaimsData", Name: "doEncode", Only: "V2"},
 	{Group: "Encode", Recv: "ClaimsData", Name: "encode", Only: "V2"},
 	{Group: "Encode", Recv: "OperatorClaims", Name: "Encode", Only: "V2"},
@@ -456,9 +472,21 @@ func (t *tr) expr(e ast.Expr) string {
 		if isAbstractType(t.info.TypeOf(x)) && len(x.Elts) == 0 {
 			return "go_nil" // the zero value of an opaque struct
 		}
-		if _, isSlice := t.info.TypeOf(x).Underlying().(*types.Slice); isSlice && len(x.Elts) == 0 {
+		if sl, isSlice := t.info.TypeOf(x).Underlying().(*types.Slice); isSlice {
 			t.coqType(x, t.info.TypeOf(x))
-			return "[]" // an empty slice literal
+			if len(x.Elts) == 0 {
+				return "[]" // an empty slice literal
+			}
+			if _, basic := sl.Elem().Underlying().(*types.Basic); basic {
+				var es []string
+				for _, el := range x.Elts {
+					if _, isKV := el.(*ast.KeyValueExpr); isKV {
+						t.fail(e, "slice literal with indices")
+					}
+					es = append(es, t.expr(el))
+				}
+				return "[" + strings.Join(es, "; ") + "]" // a slice literal of plain values: a fresh list
+			}
 		}
 		t.fail(e, "composite literal of %s", t.info.TypeOf(x))
 	case *ast.UnaryExpr:
@@ -1113,8 +1141,33 @@ func (t *tr) call(x *ast.CallExpr) string {
 				// function of its arguments (one more observation of the world)
 				if sig, ok := t.info.TypeOf(f).(*types.Signature); ok && sig.Results().Len() >= 1 && !sig.Variadic() {
 					var tys, rtys []string
+					suffix := ""
+					var plain []ast.Expr
 					for _, arg := range a {
+						if prefix, isAbs := t.absPath(arg); isAbs && !strings.HasPrefix(prefix, "\x00") && !(t.isStr(arg) || t.isInt(arg) || t.isBool(arg)) {
+							suffix += "__" + prefix // applied to an abstract value: part of the observation's name
+							continue
+						}
+						plain = append(plain, arg)
 						tys = append(tys, t.coqType(arg, t.info.TypeOf(arg)))
+					}
+					if suffix != "" {
+						for i := 0; i < sig.Results().Len(); i++ {
+							rtys = append(rtys, t.coqType(x, sig.Results().At(i).Type()))
+						}
+						rty := rtys[0]
+						if len(rtys) > 1 {
+							rty = "(" + strings.Join(rtys, " * ") + ")"
+						}
+						name := t.observeCall("go_"+pn.Imported().Name()+"_"+f.Sel.Name+suffix, "("+strings.Join(append(tys, rty), " -> ")+")")
+						var as []string
+						for _, arg := range plain {
+							as = append(as, t.expr(arg))
+						}
+						if len(as) == 0 {
+							return name
+						}
+						return "(" + name + " " + strings.Join(as, " ") + ")"
 					}
 					for i := 0; i < sig.Results().Len(); i++ {
 						rtys = append(rtys, t.coqType(x, sig.Results().At(i).Type()))
@@ -1128,6 +1181,30 @@ func (t *tr) call(x *ast.CallExpr) string {
 					return "(" + name + " " + strings.Join(args(), " ") + ")"
 				}
 				t.fail(x, "call of %s", full)
+			}
+		}
+		if inner, ok := f.X.(*ast.SelectorExpr); ok {
+			if id, ok := inner.X.(*ast.Ident); ok {
+				if pn, ok := t.info.Uses[id].(*types.PkgName); ok {
+					if sig, ok := t.info.TypeOf(f).(*types.Signature); ok && sig.Results().Len() >= 1 && !sig.Variadic() {
+						// a method of a package-level value of an imported package (base64.RawURLEncoding.DecodeString): an
+						// unknown function of its arguments, named after package, value and method
+						var tys, rtys, as []string
+						for _, arg := range x.Args {
+							tys = append(tys, t.coqType(arg, t.info.TypeOf(arg)))
+							as = append(as, t.expr(arg))
+						}
+						for i := 0; i < sig.Results().Len(); i++ {
+							rtys = append(rtys, t.coqType(x, sig.Results().At(i).Type()))
+						}
+						rty := rtys[0]
+						if len(rtys) > 1 {
+							rty = "(" + strings.Join(rtys, " * ") + ")"
+						}
+						name := t.observe("go_"+pn.Imported().Name()+"_"+inner.Sel.Name+"_"+f.Sel.Name, "("+strings.Join(append(tys, rty), " -> ")+")")
+						return "(" + name + " " + strings.Join(as, " ") + ")"
+					}
+				}
 			}
 		}
 		if f.Sel.Name == "Unix" && len(x.Args) == 0 && isTimeNow(t, f.X) {
